@@ -333,13 +333,14 @@ PATHS_PLANS = {
                   J("dw", "layered", maxv=12, weight=0), J("uw", "layered", maxv=12, weight=0), J("dw", "layered", maxv=12, weight=1), J("uw", "layered", maxv=12, weight=1),
                   J("dw", "grid", side=6, weight=0), J("uw", "grid", side=6, weight=1), J("dw", "lists", n=3, weights="1,3"), J("dw", "e2", n=3, weights="0,1,3"), J("uw", "e2", n=3, weights="0,1,3"),
                   J("uw", "perm", n=4, edges=6, weights="1,3,8"), J("dw", "e2", n=4, noloops=True, weights="0,1", maxedges=7),
+                  J("uw", "perm", n=4, edges=5, weights="1,3,8", tail=12), J("dw", "ladder", maxl=12, tail=8),
                   J("dir", "snake", maxt=48), J("und", "snake", maxt=48), J("dw", "snake", maxt=30), J("uw", "snake", maxt=30), J("dir", "chains", maxn=300), J("und", "chains", maxn=300), J("dw", "chains", maxn=300)],
         "thorough": [J("dir", "layered", maxv=16), J("und", "layered", maxv=16), J("dir", "grid", side=8), J("und", "grid", side=8), J("dir", "dense", maxn=10), J("und", "dense", maxn=10),
                      J("dir", "e2", n=4), J("und", "e2", n=5), J("und", "e2", n=6, noloops=True), J("dir", "e1", n=3), J("und", "e1", n=3),
                      J("dw", "ladder", maxl=40), J("uw", "ladder", maxl=40), J("dw", "dense", maxn=10, weight=0), J("uw", "dense", maxn=10, weight=0),
                      J("dw", "layered", maxv=14, weight=0), J("uw", "layered", maxv=14, weight=0), J("dw", "layered", maxv=14, weight=1), J("uw", "layered", maxv=14, weight=1),
                      J("dw", "grid", side=8, weight=0), J("uw", "grid", side=8, weight=1), J("dw", "lists", n=3, weights="0,1,3"), J("uw", "e2", n=4, weights="0,1,3"),
-                     J("uw", "perm", n=4, edges=6, weights="1,2,3,6,8"), J("dir", "snake", maxt=80), J("und", "snake", maxt=80), J("dw", "snake", maxt=60), J("uw", "snake", maxt=60),
+                     J("uw", "perm", n=4, edges=6, weights="1,2,3,6,8"), J("uw", "perm", n=4, edges=6, weights="1,3,8", tail=20), J("dw", "perm", n=4, edges=5, weights="1,3,8", tail=16), J("dir", "snake", maxt=80), J("und", "snake", maxt=80), J("dw", "snake", maxt=60), J("uw", "snake", maxt=60),
                      J("dir", "chains", maxn=300), J("und", "chains", maxn=300), J("dw", "chains", maxn=300), J("uw", "chains", maxn=300)] + sharded("dw", "e2", 12, n=4, noloops=True, weights="0,1,3") +
                     sharded("dw", "subsets", 8, n=5, edges=5, weights="1,3,8"),
     },
